@@ -1,4 +1,44 @@
-From Coq Require Import ZArith.
-From Tulz Require Import ResourceModel.
-Theorem placeholder_C01 : 1 = 1. Proof. reflexivity. Qed.
-Print Assumptions placeholder_C01.
+(* Properties_C01.v — rwp::Resource: a writer never shares the lock.
+   Only statements, each closed by [exact <lemma of ResourceProofs>], and Print Assumptions. *)
+From Coq Require Import List ZArith Bool Lia.
+From Tulz Require Import Common ResourceModel ResourceInv ResourceProofs.
+Import ListNotations.
+Local Open Scope Z_scope.
+
+(* The batch-counting invariant holds in every reachable state: any number of threads, any
+   sequence of labels (labels that are not enabled are skipped, so this covers exactly the
+   executions of the model), spurious wake-ups included. *)
+Theorem C01_invariant : forall n ls, RInv (run true (init n) ls).
+Proof. exact rinv_reachable. Qed.
+Print Assumptions C01_invariant.
+
+(* THE property: in every reachable state, a thread that holds the write lock is the only
+   holder — no other thread holds a read or a write lock. *)
+Theorem C01_writer_exclusive : forall n ls t1 t2 o,
+  t1 <> t2 ->
+  nth_error (thr (run true (init n) ls)) t1 = Some (Holding Wr) ->
+  nth_error (thr (run true (init n) ls)) t2 <> Some (Holding o).
+Proof. exact writer_exclusive. Qed.
+Print Assumptions C01_writer_exclusive.
+
+(* unlock()'s assert(m_activeOp == opType) never fails *)
+Theorem C01_assert_holds : forall n ls, assert_failed (run true (init n) ls) = false.
+Proof. exact assert_holds. Qed.
+Print Assumptions C01_assert_holds.
+
+(* The pinned upstream code (an admitted waiter counts itself only when it wakes up) violates
+   the property: kernel-checked witness, replayed on the implementation (corpus/C01). *)
+Theorem C01_upstream_refuted : exists ls t1 t2 o,
+  t1 <> t2 /\ nth_error (thr (run false (init 3) ls)) t1 = Some (Holding Wr)
+           /\ nth_error (thr (run false (init 3) ls)) t2 = Some (Holding o).
+Proof. exact upstream_overlap. Qed.
+Print Assumptions C01_upstream_refuted.
+
+(* non-vacuity: a state with a parked writer behind two readers, and a state in which an
+   admitted reader is still asleep while its sibling has already left, are reachable *)
+Example C01_nonvacuous :
+  map tstate_z (thr (run true (init 4)
+     [Req 0 Wr; Req 1 Rd; Req 2 Rd; Req 3 Wr; Rel 0; Notify 0; Wake 1; Rel 1])) = [0; 0; 2; 2]
+  /\ activeCount (rs (run true (init 4)
+     [Req 0 Wr; Req 1 Rd; Req 2 Rd; Req 3 Wr; Rel 0; Notify 0; Wake 1; Rel 1])) = 1.
+Proof. vm_compute. split; reflexivity. Qed.
